@@ -40,7 +40,7 @@ theorem Sim.boolCast {x : EvalM Val} {w o o' s l} {push : Val → List Slot}
 
 theorem Sim.boolCast' {x : EvalM Val} {k : Val → EvalM Val} {w o o' s l} {push : Val → List Slot}
     (hk : ∀ b l, k (.bool b) l = (.ok (.bool b), l))
-    (hk' : ∀ v l, (∀ b, v ≠ .bool b) → ∃ m, k v l = (.error (.stuck m), l))
+    (hk' : ∀ v l, (∀ b, v ≠ .bool b) → ∃ m, ¬ ExternMiss m ∧ k v l = (.error (.stuck m), l))
     (h : Sim ρ P C (x l) w o o' s l push) :
     Sim ρ P C ((x >>= k) l) w o o' s l push := by
   intro F hF
@@ -50,8 +50,8 @@ theorem Sim.boolCast' {x : EvalM Val} {k : Val → EvalM Val} {w o o' s l} {push
   · rw [bind_ok hx]; rw [hx] at h'
     by_cases hv : ∃ b, v = .bool b
     · obtain ⟨b, rfl⟩ := hv; rw [hk]; exact h'
-    · obtain ⟨m, hm⟩ := hk' v l1 (fun b hb => hv ⟨b, hb⟩)
-      rw [hm]; intro hs; exact absurd hs (by simp)
+    · obtain ⟨m, hne, hm⟩ := hk' v l1 (fun b hb => hv ⟨b, hb⟩)
+      rw [hm]; intro hs; exact absurd hs hne
 
 theorem simC_true {α} {r : Except Fail α × List Event} {w o1 o2 o3 o4 o' s l} {push : α → List Slot}
     (h1 : decodeAt C o1 = some (.jump .IF_TRUE o4, o2))
@@ -111,7 +111,7 @@ theorem callStrict_eq (ext : Externs) (ty : Ty) (ref : FunRef) (il : Bool) (args
       by_cases hl : b.isLazy = true
       · exfalso
         simp only [bind_apply, lift_apply, applyBuiltin_lazy hb hl, stuckCast, andThen_err] at h
-        exact h
+        exact absurd h (show ¬ ExternMiss ("cast:" ++ "builtin-args") by decide)
       · simp only [hl]; rfl
 
 theorem callFun_strict_bad {f ρ idx args l} (hb : builtins[idx]? = none) :
@@ -368,7 +368,7 @@ theorem simE_call (hρ : ρ.funs = funs) (hE : SimE funs ρ P f)
           refine simC_true hd1 hd2 (Sim.boolCast' (fun _ _ => rfl) ?_
             (hE y C _ _ s l1 (by omega) ht hwa.2.1 hka.2.1))
           intro v l hv
-          cases v <;> first | exact ⟨_, rfl⟩ | exact absurd rfl (hv _)
+          cases v <;> first | exact ⟨_, by decide, rfl⟩ | exact absurd rfl (hv _)
         | false =>
           cases hf with
           | bool hdec hp => exact simC_false hd1 (simE_lit (by have := W_pos y; omega) hdec hp)
@@ -399,7 +399,7 @@ theorem simE_call (hρ : ρ.funs = funs) (hE : SimE funs ρ P f)
           refine simC_false hd1 (Sim.boolCast' (fun _ _ => rfl) ?_
             (hE y C _ _ s l1 (by omega) hf hwa.2.1 hka.2.1))
           intro v l hv
-          cases v <;> first | exact ⟨_, rfl⟩ | exact absurd rfl (hv _)
+          cases v <;> first | exact ⟨_, by decide, rfl⟩ | exact absurd rfl (hv _)
       | _ => exact Sim.stuck
   | not hres hrs hbid h1 hdec =>
     rename_i o1 d x rest
